@@ -172,6 +172,25 @@ def coq_make(targets, timeout=1500):
     return rc == 0, out + err
 
 
+_MODEL_BUILT = False
+
+
+def model_ready(proofs_ok):
+    """The search for a failing input needs the executable model, not the proofs: when the proof
+    build failed, (re)build every Model/*.v that still compiles (make -k), so that the generated
+    cases can be evaluated against it.  Case files that need a model file which does not
+    compile fail on their own and are reported as a broken correspondence."""
+    global _MODEL_BUILT
+    if proofs_ok:
+        return True
+    if not _MODEL_BUILT:
+        _MODEL_BUILT = True
+        coq_makefile()
+        targets = sorted("Model/" + f + "o" for f in os.listdir(os.path.join(COQ, "Model")) if f.endswith(".v"))
+        sh(["make", "-k", "-j16"] + targets, cwd=COQ, timeout=1500)
+    return True
+
+
 def scan_forbidden():
     """Text scan of the whole development for declarations that would weaken it."""
     bad = []
